@@ -169,7 +169,7 @@ class MinErrorFlow():
 
         self.different_flow_values_epsilon = few_flow_values_epsilon
         if few_flow_values_epsilon is not None:
-            if few_flow_values_epsilon < 0:
+            if not (few_flow_values_epsilon >= 0):
                 utils.logger.error(f"{__name__}: different_flow_values_epsilon must be greater than or equal to 0, not {few_flow_values_epsilon}")
                 raise ValueError(f"different_flow_values_epsilon must be greater than or equal to 0, not {few_flow_values_epsilon}")
             if few_flow_values_epsilon == 0:
